@@ -123,7 +123,9 @@ def prop_menu(mid):
             out.append((name, v, 'DoubleFloat', ('float', struct.pack('<d', v).hex())))
         out += [('b', True, 'Boolean', ('bool', True)), ('b0', False, 'Boolean', ('bool', False)),
                 ('s', 'é日本', 'String', ('str', 'é日本')), ('e', '', 'String', ('str', '')),
-                ("q'/ ", "it's", 'String', ('str', "it's")), ('\ufeffs', '\ufeffv', 'String', ('str', '\ufeffv'))]
+                ("q'/ ", "it's", 'String', ('str', "it's")), ('\ufeffs', '\ufeffv', 'String', ('str', '\ufeffv')),
+                # the segment tag as ordinary text inside the metadata
+                ('TDSm', 'xTDSmTDShx', 'String', ('str', 'xTDSmTDShx'))]
         return out
     if mid == 3:
         sc = [('np_i8', np.int8(-5), 'Int8'), ('np_u8', np.uint8(200), 'Uint8'), ('np_i16', np.int16(-300), 'Int16'),
@@ -325,9 +327,11 @@ def run_program(calls, assign, split, version, dest, index):
     sessions = [list(range(nc))] if not split or nc < 2 else [list(range(split)), list(range(split, nc))]
     tmp = None
     try:
-        if dest in ('path', 'path-stale'):
+        if dest in ('path', 'path-stale', 'path-empty'):
             tmp = H.scratch('verif_c07_')
             path = os.path.join(tmp, 'f.tdms')
+            if dest == 'path-empty':
+                open(path, 'wb').close()     # e.g. from mkstemp / touch: the first appended segment is the first segment of the file
             if dest == 'path-stale':
                 # the path already holds a file and its index from an earlier run; this run first re-creates the file (mode 'w')
                 # without writing anything and then appends everything in a second session
@@ -340,8 +344,8 @@ def run_program(calls, assign, split, version, dest, index):
             stream = io.BytesIO()
             istream = io.BytesIO() if index else None
         for sidx, sess in enumerate(sessions):
-            if dest in ('path', 'path-stale'):
-                w = TdmsWriter(path, mode='w' if sidx == 0 else 'a', version=version, index_file=bool(index))
+            if dest in ('path', 'path-stale', 'path-empty'):
+                w = TdmsWriter(path, mode='w' if (sidx == 0 and dest != 'path-empty') else 'a', version=version, index_file=bool(index))
             else:
                 w = TdmsWriter(stream, version=version, index_file=istream if index else False)
             with w:
@@ -366,7 +370,7 @@ def run_program(calls, assign, split, version, dest, index):
                         # the caller catches the error and carries on: a rejected call must have no effect at all
                         models[-1] = []
                         rejected.append(ci)
-        if dest in ('path', 'path-stale'):
+        if dest in ('path', 'path-stale', 'path-empty'):
             data = open(path, 'rb').read()
             idx = (open(path + '_index', 'rb').read() if os.path.exists(path + '_index') else b'<no index file>') if index else None
         else:
